@@ -437,3 +437,60 @@ mod tests {
         assert_eq!(parse_duration("-9223372036854775808ms"), Some(i64::MIN));
     }
 }
+
+/// (year, month, day) of a day count since 1970-01-01 (proleptic Gregorian), own arithmetic
+pub fn civil_from_days(days: i64) -> (i64, i64, i64) {
+    let before = |y: i64| -> i64 {
+        // days from 0000-01-01 to y-01-01 (y may be negative)
+        let leaps = |y: i64| -> i64 {
+            // number of leap years in [0, y) for y >= 0; for y < 0, minus the number in [y, 0)
+            if y >= 0 {
+                if y == 0 {
+                    0
+                } else {
+                    (y - 1) / 4 - (y - 1) / 100 + (y - 1) / 400 + 1
+                }
+            } else {
+                -((-y) / 4 - (-y) / 100 + (-y) / 400)
+            }
+        };
+        y * 365 + leaps(y)
+    };
+    let d0 = days + (before(1970) - before(0)); // days since 0000-01-01
+    let mut y = d0.div_euclid(366).max(-400_000_000);
+    // move forward to the right year
+    while before(y + 1) - before(0) <= d0 {
+        y += 1;
+    }
+    while before(y) - before(0) > d0 {
+        y -= 1;
+    }
+    let mut rem = d0 - (before(y) - before(0));
+    let mut m = 1;
+    loop {
+        let dim = days_in_month(y, m);
+        if rem < dim {
+            break;
+        }
+        rem -= dim;
+        m += 1;
+    }
+    (y, m, rem + 1)
+}
+
+#[cfg(test)]
+mod civil_tests {
+    use super::*;
+    #[test]
+    fn roundtrip() {
+        for d in (-719_528..2_932_896).step_by(37) {
+            let (y, m, dd) = civil_from_days(d);
+            assert!((0..=9999).contains(&y), "{d} -> {y}");
+            assert_eq!(days_from_civil(y, m, dd), d);
+        }
+        assert_eq!(civil_from_days(0), (1970, 1, 1));
+        assert_eq!(civil_from_days(-1), (1969, 12, 31));
+        assert_eq!(civil_from_days(-719_528), (0, 1, 1));
+        assert_eq!(civil_from_days(2_932_896), (9999, 12, 31));
+    }
+}
